@@ -640,7 +640,7 @@ def replay(trace, pristine=None):
     return _result(sim, trace)
 
 
-TIERS = {"quick": {"runs": 6000, "guard": 120}, "thorough": {"runs": 40000, "guard": 300}}
+TIERS = {"quick": {"runs": 6000, "guard": 120}, "thorough": {"runs": 100000, "guard": 300}}
 
 RULE = (
     "One case = one seeded history on 1-3 independent cost objects of one class (L2Cost, GaussianVarCost or GaussianCovCost; optimal or "
